@@ -25,6 +25,7 @@ LIT = {"INT": "1", "STRING": "\"s\"", "FLOAT": "1.5", "SYMBOL": ":a", "BOOL": "t
 RECV = {"Integer": "1", "String": "\"s\"", "Float": "1.5", "Array": "[1]", "Hash": "{a: 1}", "Symbol": ":a",
         "NilClass": "nil", "Range": "(1..2)"}
 IDENT = re.compile(r"^[a-z_][a-z0-9_]*[?!]?$")
+OPERATORS = {"==", "!=", "===", "<=>", "+", "-", "*", "/", "%", "<", ">", "<=", ">=", "<<", "&", "|", "^", "**"}
 FOO = {"k": "t", "u": False, "vs": [V("OBJECT", "Foo")]}
 
 
@@ -95,7 +96,7 @@ def methods_of(cfgdir):
             continue
         for m in d.get("instance_methods") or []:
             name = m.get("name", "")
-            if not IDENT.match(name):
+            if not IDENT.match(name) and not (name in OPERATORS and len(m.get("arguments") or []) == 1):
                 skipped += 1
                 continue
             if m.get("block_parameters"):
@@ -118,6 +119,16 @@ def arg_for(ty):
 
 def cases_for(cls, name, decls):
     d0 = decls[0]
+    if name in OPERATORS:
+        # infix form only: exactly one operand
+        a = {"key": "", "ty": arg_for(d0[0]["ty"])}
+        out = [("ok", [a])]
+        if d0[0]["ty"]["k"] == "any":
+            for tt, c in (("STRING", "String"), ("ARRAY", "Array"), ("HASH", "Hash"), ("NIL", "NilClass")):
+                out.append(("ok-untyped-0-%s" % tt, [{"key": "", "ty": {"k": "t", "u": False, "vs": [V(tt, c)]}}]))
+        else:
+            out.append(("foreign-arg-0", [{"key": "", "ty": FOO}]))
+        return out
     ok = []
     for p in d0:
         if p["kind"] == "req":
@@ -126,6 +137,13 @@ def cases_for(cls, name, decls):
         if p["kind"] == "key":
             ok.append({"key": p["key"], "ty": arg_for(p["ty"])})
     out = [("ok", ok)]
+    # a parameter declared Untyped accepts every kind of literal (array and hash literals included)
+    for i, p in enumerate([p for p in d0 if p["kind"] == "req"]):
+        if p["ty"]["k"] == "any":
+            for tt, c in (("STRING", "String"), ("ARRAY", "Array"), ("HASH", "Hash"), ("NIL", "NilClass")):
+                alt = [dict(x) for x in ok]
+                alt[i] = {"key": "", "ty": {"k": "t", "u": False, "vs": [V(tt, c)]}}
+                out.append(("ok-untyped-%d-%s" % (i, tt), alt))
     full = list(ok)
     nopt = [p for p in d0 if p["kind"] == "opt"]
     if nopt:
@@ -146,6 +164,10 @@ def cases_for(cls, name, decls):
 
 
 def call_src(recv_var, name, args):
+    if name in OPERATORS:
+        if len(args) != 1 or args[0]["key"]:
+            return "%s.%s(%s)" % (recv_var, name, ", ".join(LIT[a["ty"]["vs"][0]["tt"]] for a in args))
+        return "%s %s %s" % (recv_var, name, LIT[args[0]["ty"]["vs"][0]["tt"]])
     parts = []
     for a in args:
         lit = LIT[a["ty"]["vs"][0]["tt"]]
